@@ -533,10 +533,11 @@ def gen_loop_spellings(sizes):
 
 
 def finding_class(case):
-    """Which separate stream a case belongs to (mirrors the known-finding predicates; "main" otherwise)."""
+    """Input class of a case, for the distribution in the evidence file: the classes of the findings C23-F1..F3
+    (fixed by 4aad8e2 / b779a95, kept in the window) and of the open finding C23-F4; "main" otherwise."""
     from harness import known_c23 as K
-    for name, fn in (("F3-three-part", K.has_three_part), ("F4-fewer-subscripts", K.fewer_subscripts),
-                     ("F1-slice-lower-bound", K.slice_lower_bound_below_one), ("F2-loop-wrap", K.loop_index_below_one)):
+    for name, fn in (("three-part-range", K.has_three_part), ("F4-fewer-subscripts", K.fewer_subscripts),
+                     ("slice-bound-below-1", K.slice_lower_bound_below_one), ("loop-index-below-1", K.loop_index_below_one)):
         if fn(case):
             return name
     return "main"
@@ -554,17 +555,17 @@ def run(ctx):
     plan = []
     # exhaustive 1-D windows
     plan.append(("1d-eq", list(gen_1d_equation((1, 2, 3, 4), ("eq",))), None))
-    plan.append(("1d-eq-rhs-sum", list(gen_1d_equation((1, 2, 3) if quick else (1, 2, 3, 4), ("rhs", "sum"))), 700 if quick else None))
+    plan.append(("1d-eq-rhs-sum", list(gen_1d_equation((1, 2, 3) if quick else (1, 2, 3, 4), ("rhs", "sum"))), 450 if quick else None))
     plan.append(("1d-loop", list(gen_1d_loop((1, 2, 3, 4), ("eq",))), None))
     plan.append(("1d-loop-rhs", list(gen_1d_loop((1, 2, 3), ("rhs",))), 300 if quick else None))
     plan.append(("scalar+arity", list(gen_scalar_and_arity()), None))
     plan.append(("fixed-in-loop", list(gen_fixed_in_loop((1, 2, 3))), 250 if quick else None))
     plan.append(("loop-spellings", list(gen_loop_spellings((1, 2, 3, 4))), 250 if quick else None))
-    plan.append(("three-part", list(gen_three_part((1, 2, 3) if quick else (1, 2, 3, 4))), 500 if quick else None))
+    plan.append(("three-part", list(gen_three_part((1, 2, 3) if quick else (1, 2, 3, 4))), 350 if quick else None))
     plan.append(("fewer-subscripts", list(gen_fewer_subscripts(((2, 2), (2, 3), (3, 2)))), 150 if quick else None))
     shapes = [(1, 1), (1, 2), (2, 1), (2, 2), (2, 3), (3, 2), (3, 3)]
-    plan.append(("2d-eq", list(gen_2d_equation(shapes if quick else shapes + [(1, 4), (4, 2), (4, 4)])), 1500 if quick else 60000))
-    plan.append(("2d-loop", list(gen_2d_loop(shapes if quick else shapes + [(4, 2), (2, 4)])), 900 if quick else 40000))
+    plan.append(("2d-eq", list(gen_2d_equation(shapes if quick else shapes + [(1, 4), (4, 2), (4, 4)])), 800 if quick else 60000))
+    plan.append(("2d-loop", list(gen_2d_loop(shapes if quick else shapes + [(4, 2), (2, 4)])), 500 if quick else 40000))
     ctx.extra["exhaustive"] = {}
     for name, cases, cap in plan:
         full = cap is None or len(cases) <= cap
